@@ -118,7 +118,7 @@ def search_request(payload):
                      [b'%s,,x\r\n'], [b'%s,\r\n'], [b'%s, x\r\n'], [b'ZZ\r\n', b'%s\r\n'], [b'!8 Err: x\r\n', b'%s,1\r\n'],
                      [b'%s Err: 1\r\n', b'%s\r\n'], [b'ZZ\r\n', b'', b'%s\r\n'],
                      # the name occurs, but not at the start; only the FIRST letter of a two-character name matches
-                     [b'?%s,1\r\n'], [b'X%s\r\n'], [b'@1P\r\n'], [b'@1,7\r\n'], [b'@1\r\n']):
+                     [b'?%s,1\r\n'], [b'X%s\r\n'], [b'%s,Wow!\r\n'], [b'%s,error free\r\n'], [b'QG,%s\r\n'], [b'@1P\r\n'], [b'@1,7\r\n'], [b'@1\r\n']):
             streams.append([b''] * b + tail)
     for cmd in cmds:
         t = 'QG' if cmd is None else cmd.strip()
